@@ -630,7 +630,8 @@ REQUIRED_THEOREMS = ['CfVerif.C06.' + t for t in (
     'gen_constants', 'gen_read_request', 'gen_write_request', 'gen_memory_api', 'gen_handlers', 'gen_disconnect', 'gen_tester',
     'tester_write_pattern', 'next_read_served', 'next_write_served',
     'gen_deck_variant', 'gen_deck_constants', 'gen_deck_records', 'deck_exactly_one', 'deck_records_follow_memory',
-    'deck_next_request_accepted', 'deck_next_write_accepted', 'deck_query_failure_unreported_counterexample',
+    'deck_next_request_accepted', 'deck_next_write_accepted', 'deck_exactly_one_any_variant',
+    'deck_records_follow_memory_any_variant', 'deck_next_request_accepted_any_variant', 'deck_next_write_accepted_any_variant', 'deck_query_failure_unreported_counterexample',
     'deck_write_failure_without_callback_counterexample', 'deck_overlapping_requests_counterexample',
     'deck_read_record_must_always_be_cleared',
     'd9_lock_left_held', 'd9_wedged')]
